@@ -46,7 +46,10 @@ RULE = ("random rule systems (3-8 variables over the expression language of coq/
         "ETERNITY, person and group variables, one eternal, one with the divide rule) built alone and together through "
         "build_from_entities; (n/3) a group entity whose first role has sub-roles (parent -> first_parent / second_parent), "
         "one situation declaring no household at all or leaving persons out of its households, role-restricted "
-        "nb_persons / sum / has_role / first_parent, alone vs together by id; non-trivial when a formula with a group operation was evaluated in the merged simulation "
+        "nb_persons / sum / has_role / first_parent, alone vs together by id; (n/5) float64 inputs that float32 rounds (0.1, "
+        "2^24+1, 1/3) in situation 1 and 1e39 / inf / -inf / NaN in situation 2: stored array and dtype, x > 0.1, household "
+        "sums; one case with 66000-70000 single-person households before and after situation 1 (membership arrays and "
+        "build_from_entities without households); non-trivial when a formula with a group operation was evaluated in the merged simulation "
         "and returned an array; distinct by JSON text")
 TRUSTED = ["harness/rules.py: compiler from rule-system terms to real Variable subclasses (formulas call the public API)",
            "harness/c11.py: scatter-style construction of merged / permuted members_entity_id, members_role and input arrays"]
@@ -61,7 +64,7 @@ GROUP_PROFILE = {"nvars": (4, 8), "bad": 0.0, "badreq": 0.0, "nparams": 1, "neut
 SPIRAL_PROFILE = {"nvars": (2, 5), "spiral": 0.5, "bad": 0.0, "badreq": 0.0, "nparams": 1, "depth": 2}
 
 _SKIP = set()
-ORACLE_ONLY = ("divide", "first", "spell", "roles")
+ORACLE_ONLY = ("divide", "first", "spell", "roles", "f32", "scale")
 
 
 def _key(case):
@@ -294,6 +297,31 @@ def gen_roles(rng):
     return {"kind": "roles", "sit1": s1, "sit2": s2, "f1": f1, "f2": f2, "g1": g1, "g2": g2, "modes": [pmode, gmode]}
 
 
+def gen_f32(rng):
+    """Oracle-only stream: float64 inputs that float32 cannot represent for situation 1, a huge / infinite /
+    NaN value somewhere in situation 2, same variable."""
+    pop1, pop2 = rules.gen_pop(rng, 3), rules.gen_pop(rng, 3)
+    n1, n2 = len(pop1["ids"]), len(pop2["ids"])
+    fine = ["0.1", "16777217.0", "0.3333333333333333", "0.7", "33554435.0", "0.1000000001", "-0.1", "2.5", "0.0"]
+    huge = ["1e39", "inf", "-inf", "nan", "-1e39", "3.5e38"]
+    x1 = [rng.choice(fine) for _ in range(n1)]
+    x2 = [rng.choice(fine + huge) for _ in range(n2)]
+    x2[rng.randrange(n2)] = rng.choice(huge)
+    pmode, f1, f2 = gen_interleaving(rng, n1, n2)
+    gmode, g1, g2 = gen_interleaving(rng, pop1["count"], pop2["count"])
+    return {"kind": "f32", "pop1": pop1, "pop2": pop2, "x1": x1, "x2": x2,
+            "f1": f1, "f2": f2, "g1": g1, "g2": g2, "modes": [pmode, gmode]}
+
+
+def gen_scale(rng):
+    """Oracle-only, one per run: situation 2 has more than 65536 single-person households."""
+    pop1 = rules.gen_pop(rng, 4)
+    n1 = len(pop1["ids"])
+    n2 = rng.randint(66000, 70000)
+    return {"kind": "scale", "pop1": pop1, "n2": n2, "x1": [rng.randint(1, 900) for _ in range(n1)],
+            "seed2": rng.randrange(10 ** 6), "modes": ["block+block-rev", "block+block-rev"]}
+
+
 def generate(rng, tier):
     n = {"quick": 300, "escalated": 600, "thorough": 4000}[tier]
     cases = []
@@ -308,6 +336,10 @@ def generate(rng, tier):
         cases.append(gen_spell(rng))
     for _ in range(n // 3):
         cases.append(gen_roles(rng))
+    for _ in range(n // 5):
+        cases.append(gen_f32(rng))
+    for _ in range(max(1, n // 1000)):
+        cases.append(gen_scale(rng))
     return cases
 
 
@@ -790,7 +822,145 @@ def oracle_roles(case, obs):
     return None
 
 
+def small_system():
+    """x (person input), over = x > 0.1, hx = household sum of x, nb = household size, hx_p = hx projected"""
+    from openfisca_core import periods
+    from openfisca_core.variables import Variable
+    tbs = rules.build_system({"vars": [], "params": []}, set())
+    person, household = tbs.person_entity, tbs.group_entities[0]
+    month = periods.DateUnit.MONTH
+
+    def var(name, ent, ty, f=None):
+        attrs = {"value_type": ty, "entity": ent, "definition_period": month}
+        if f is not None:
+            attrs["formula"] = f
+        tbs.add_variable(type(name, (Variable,), attrs))
+    var("x", person, float)
+    var("over", person, bool, lambda p, period: p("x", period) > 0.1)
+    var("hx", household, float, lambda h, period: h.sum(h.members("x", period)))
+    var("nb", household, int, lambda h, period: h.nb_persons())
+    var("hx_p", person, float, lambda p, period: p.household("hx", period))
+    return tbs
+
+
+def read_small(sim):
+    def show(a):
+        return [repr(float(v)) for v in a]
+    stored = sim.get_array("x", "2018-01")
+    return {"person": {"stored x": show(stored), "dtype of stored x": [str(stored.dtype)] * len(stored),
+                       "x > 0.1": show(sim.calculate("over", "2018-01")),
+                       "household sum projected": show(sim.calculate("hx_p", "2018-01"))},
+            "group": {"household sum": show(sim.calculate("hx", "2018-01")),
+                      "household size": show(sim.calculate("nb", "2018-01"))}}
+
+
+def run_f32(case):
+    n1, n2 = len(case["pop1"]["ids"]), len(case["pop2"]["ids"])
+    runs = []
+    with warnings.catch_warnings(), numpy.errstate(all="ignore"):
+        warnings.simplefilter("ignore")
+        for pop, x in ((case["pop1"], case["x1"]), (case["pop2"], case["x2"]),
+                       (merged_pop(case), scatter([(case["f1"], case["x1"]), (case["f2"], case["x2"])], n1 + n2))):
+            try:
+                sim = rules.build_simulation(small_system(), pop, {}, {"max_loops": 1})
+                sim.set_input("x", "2018-01", numpy.array([float(v) for v in x], dtype=numpy.float64))
+                runs.append(read_small(sim))
+            except Exception as e:  # noqa: BLE001
+                runs.append(Err(errkind(e), f"{type(e).__name__}: {e}"[:200]))
+    return {"f32": runs}
+
+
+def compare_small(tag, m, small, fp, fg, n_big, c_big):
+    if isinstance(small, Err):
+        return f"driver: the situation alone fails: {small.kind} {small.msg}"
+    if isinstance(m, Err):
+        return f"{tag}: together {m!r} {m.msg}, alone values"
+    for level, f, total in (("person", fp, n_big), ("group", fg, c_big)):
+        for name in small[level]:
+            msg = compare_arrays(f"{tag}: {name}", m[level][name], small[level][name], f, total)
+            if msg:
+                return msg
+    return None
+
+
+def oracle_f32(case, obs):
+    a1, a2, m = obs["f32"]
+    n = len(case["pop1"]["ids"]) + len(case["pop2"]["ids"])
+    c = case["pop1"]["count"] + case["pop2"]["count"]
+    return (compare_small("merged-vs-situation1-float32", m, a1, case["f1"], case["g1"], n, c)
+            or compare_small("merged-vs-situation2-float32", m, a2, case["f2"], case["g2"], n, c))
+
+
+def run_scale(case):
+    """situation 1 alone and together with n2 single-person households, before and after them: through
+    numpy membership arrays (like rules.build_simulation) and, every person living alone, through
+    build_from_entities without declared households"""
+    from openfisca_core.simulations.simulation_builder import SimulationBuilder
+    pop1, n2 = case["pop1"], case["n2"]
+    n1, c1 = len(pop1["ids"]), pop1["count"]
+    x2 = numpy.random.RandomState(case["seed2"]).randint(1, 900, size=n2)
+    out = {}
+    with warnings.catch_warnings():
+        warnings.simplefilter("ignore")
+
+        def direct(pop, x):
+            sim = rules.build_simulation(small_system(), pop, {}, {"max_loops": 1})
+            sim.set_input("x", "2018-01", numpy.asarray(x, dtype=numpy.float64))
+            return read_small(sim)
+
+        def built(ids, x):
+            sim = SimulationBuilder().build_from_entities(small_system(), {"persons": {i: {} for i in ids}})
+            sim.set_input("x", "2018-01", numpy.asarray(x, dtype=numpy.float64))
+            return read_small(sim)
+        ids1, ids2 = [f"a{i}" for i in range(n1)], [f"b{i}" for i in range(n2)]
+        steps = {
+            "arrays alone": lambda: direct(pop1, case["x1"]),
+            "arrays first": lambda: direct({"count": c1 + n2, "ids": pop1["ids"] + [c1 + j for j in range(n2)],
+                                            "roles": pop1["roles"] + [0] * n2}, list(case["x1"]) + list(x2)),
+            "arrays last": lambda: direct({"count": c1 + n2, "ids": list(range(n2)) + [n2 + g for g in pop1["ids"]],
+                                           "roles": [0] * n2 + pop1["roles"]}, list(x2) + list(case["x1"])),
+            "builder alone": lambda: built(ids1, case["x1"]),
+            "builder first": lambda: built(ids1 + ids2, list(case["x1"]) + list(x2)),
+            "builder last": lambda: built(ids2 + ids1, list(x2) + list(case["x1"])),
+        }
+        for name, fn in steps.items():
+            try:
+                r = fn()
+                # keep situation 1's part only (the observation stays small)
+                if name.endswith("first"):
+                    r = {lv: {k: v[:(n1 if lv == "person" else (c1 if name.startswith("arrays") else n1))]
+                              for k, v in d.items()} for lv, d in r.items()}
+                elif name.endswith("last"):
+                    r = {lv: {k: v[n2:] for k, v in d.items()} for lv, d in r.items()}
+                out[name] = r
+            except Exception as e:  # noqa: BLE001
+                out[name] = Err(errkind(e), f"{type(e).__name__}: {e}"[:200])
+    return {"scale": out}
+
+
+def oracle_scale(case, obs):
+    o = obs["scale"]
+    for path in ("arrays", "builder"):
+        alone = o[f"{path} alone"]
+        if isinstance(alone, Err):
+            return f"driver: the situation alone fails: {alone.kind} {alone.msg}"
+        for where in ("first", "last"):
+            m = o[f"{path} {where}"]
+            tag = f"merged-vs-situation1-scale: {path}, situation 1 {where}, with {case['n2']} other households"
+            if isinstance(m, Err):
+                return f"{tag}: together {m!r} {m.msg}"
+            for level in ("person", "group"):
+                for name, v in alone[level].items():
+                    if m[level][name] != v:
+                        return f"{tag}: {name}: together {m[level][name]}, alone {v}"
+    return None
+
+
 def run_impl(case):
+    if case.get("kind") == "f32":
+        return run_f32(case)
+    if case.get("kind") == "scale":
+        return run_scale(case)
     if case.get("kind") == "roles":
         return run_roles(case)
     if case.get("kind") == "divide":
@@ -920,6 +1090,10 @@ def oracle(case, obs):
         return oracle_first(case, obs)
     if case.get("kind") == "roles":
         return oracle_roles(case, obs)
+    if case.get("kind") == "f32":
+        return oracle_f32(case, obs)
+    if case.get("kind") == "scale":
+        return oracle_scale(case, obs)
     if case.get("kind") == "spell":
         return oracle_spell(case, obs)
     a1, a2, m, p = obs["runs"]
@@ -960,6 +1134,8 @@ def oracle(case, obs):
 def nontrivial(case, obs):
     if obs == "skip" or isinstance(obs, Err):
         return False
+    if case.get("kind") == "scale":
+        return not any(isinstance(r, Err) for r in obs["scale"].values())
     if case.get("kind") in ORACLE_ONLY:
         return not any(isinstance(r, Err) for r in obs[case["kind"]])
     if not (rules.has_tag(case["sys"], "agg") or rules.has_tag(case["sys"], "project") or rules.has_tag(case["sys"], "nb")):
@@ -997,7 +1173,9 @@ def classify(case, obs):
     if case.get("kind") in ORACLE_ONLY:
         name = {"divide": "divide-rule", "first": "position-dependent primitives, interleaved households",
                 "spell": "builder, differently spelled periods",
-                "roles": "builder, first role with sub-roles, persons left out / no household declared"}[case["kind"]]
+                "roles": "builder, first role with sub-roles, persons left out / no household declared",
+                "f32": "float inputs float32 cannot represent next to huge / infinite ones",
+                "scale": "more than 65536 households"}[case["kind"]]
         return name + " (oracle only)" + ("" if isinstance(obs, dict) else " driver-error")
     if not kinded(case["sys"]):
         return "NOT-KINDED (outside the theorems' hypothesis)"
